@@ -69,7 +69,12 @@ impl<T> Receiver<T> {
     pub fn try_recv(&mut self) -> Result<Option<T>, ChannelClosed> {
         match self.rx.pop() {
             Ok(val) => Ok(Some(val)),
-            Err(_) if self.rx.is_abandoned() => Err(ChannelClosed),
+            Err(_) if self.rx.is_abandoned() => {
+                // The producer may have pushed its last commands and gone away between the
+                // failed pop and the check above: look once more before giving up the channel.
+                std::sync::atomic::fence(std::sync::atomic::Ordering::Acquire);
+                self.rx.pop().map(Some).map_err(|_| ChannelClosed)
+            }
             Err(_) => Ok(None),
         }
     }
